@@ -158,8 +158,12 @@ def frame_goal(a, b):
     if isinstance(a, ObjV) and isinstance(b, ObjV) and a.cls == b.cls:
         if "__id__" in a.fields and "__id__" in b.fields and a.fields["__id__"] is not b.fields["__id__"]:
             return None                   # a different object was bound to the name
+        if "__origin__" in a.fields and getattr(b.fields.get("__origin__"), "v", None) != a.fields["__origin__"].v:
+            return None                   # the name was re-bound to another object (a slice, a copy, a new record)
         cs = []
         for k_ in a.fields:
+            if k_ == "__origin__":
+                continue
             if k_ not in b.fields:
                 return None
             g = frame_goal(a.fields[k_], b.fields[k_])
@@ -292,6 +296,12 @@ def verify_function(c, mutate=None, canary=False):
             cx.pending = []
     for lab, e in c._requires:
         st.pc.append(boolify(X.ev(e, st, True)))
+    for p_ in c.params:
+        v_ = st.env.get(p_)
+        if isinstance(v_, ObjV) and v_.cls not in ("__kwdict__", "__kwargs__"):
+            st.env[p_] = v_.with_field("__origin__", PyConst(("origin", p_)))
+        elif isinstance(v_, Opt) and isinstance(v_.val, ObjV) and v_.val.cls not in ("__kwdict__", "__kwargs__"):
+            st.env[p_] = Opt(v_.none, v_.val.with_field("__origin__", PyConst(("origin", p_))))
     cx.entry = st.copy()
     cx.covers.append(("entry", list(st.pc)))
     outs = X.ex_block(fnode.body, st)
